@@ -137,6 +137,36 @@ message CapOne {
 """
 
 
+def schema_oneofap():
+    """oneof members whose message type is always present (message option or field option): by-value inside the wrapper."""
+    return header("oneofap") + """
+message Val {
+  option (pico.message).always_present = true;
+  int32 x = 1;
+  repeated sint64 y = 2;
+}
+message Ptr { int32 x = 1; OneofAP back = 2; }
+message OneofAP {
+  int32 before = 1;
+  oneof pick {
+    bool flag = 3;
+    Val val = 15;
+    Ptr ptr = 16;
+    Ptr forced = 17 [(pico.field).always_present = true];
+  }
+  repeated uint32 after = 20;
+  Val plain = 21;
+}
+message OneofAPCap {
+  option (pico.message).capture_unrecognized_fields = true;
+  oneof pick {
+    Val val = 2;
+    string s = 3;
+  }
+}
+"""
+
+
 def schema_bigenum():
     """enum size boundaries (top-level with 20 values, nested with 17, negative and sparse numbers)."""
     s = header("bigenum", pico=False) + "enum Code {\n"
@@ -237,7 +267,7 @@ BOUNDARY = {
 
 def fixed_schemas():
     return {"allmaps": schema_allmaps(), "recur": schema_recur(), "presence": schema_presence(), "order": schema_order(), "casts": schema_casts(),
-            "capone": schema_capone(), "bigenum": schema_bigenum(), "wkimp": schema_wkimp()}
+            "capone": schema_capone(), "oneofap": schema_oneofap(), "bigenum": schema_bigenum(), "wkimp": schema_wkimp()}
 
 
 def build(schemas, tag="fresh"):
